@@ -12,6 +12,7 @@ mod alloc;
 mod common;
 mod live;
 mod subs;
+mod c04b;
 mod c12b;
 mod c18b;
 mod sim;
